@@ -30,7 +30,8 @@ MANIFEST = {
     'technique': ('lockset / atomicity analysis (RacerD-style, specialised): RMW sequences by '
                   'def-use from datastore reads to datastore writes, covering `with` regions, '
                   'typestate-aware conflict test; lock-order graph incl. Pythia re-entry; '
-                  'lock-coverage lint of both datastores'),
+                  'lock-coverage lint of both datastores'
+                  '; lock-key kind inference (owner/study/trial) from the uses of the key expression, sibling cross-check per lock table'),
     'level_text': (
         'Static: for every pair of conflicting read-modify-write sequences of the servicer the '
         'locksets held across the whole sequence intersect; the lock-order graph is acyclic; '
